@@ -174,22 +174,29 @@ theorem forS7_facts (x : Var) (e : Expr) {b : Nat} {σ : BState} (hb : b < σ.le
   have hls : σ.len ≤ (forS1 e b σ).len := g1.touch.len
   obtain ⟨f1, f2, f3, f4, f5, f6, f7, f8, f9⟩ :=
     forTpl_facts x σ.nextTmp (σ.nextTmp + 1) g1.lt g1.opn
+  unfold forS7
   refine ⟨?_, hls, f1, f2, f3, f4, f5, f6, f7, f8⟩
   have hcur : (forA e b σ).2.1 = b ∨ σ.len ≤ (forA e b σ).2.1 := g1.cur
-  refine ⟨by rw [show (forS7 x e b σ).len = _ from f1]; omega, ?_, ?_, ?_⟩
-  · rw [show (forS7 x e b σ).nextTmp = _ from f2]
+  have hfr : ∀ i, i < σ.len → i ≠ b → (forS1 e b σ).blk i = σ.blk i := fun i hi hne => by
+    have := g1.touch.frame i hi hne
+    simp only [blk_freshTmp] at this
+    exact this
+  have hp : (σ.blk b).stmts <+: ((forS1 e b σ).blk b).stmts := by
+    have := g1.touch.pre
+    simp only [blk_freshTmp] at this
+    exact this
+  have htm : σ.nextTmp ≤ (forS1 e b σ).nextTmp := by
     have := g1.touch.tmp
     simp only [tmp_freshTmp] at this
     omega
+  refine ⟨by rw [f1]; omega, by rw [f2]; exact htm, ?_, ?_⟩
   · intro i hi hne
-    rw [show (forS7 x e b σ).blk i = _ from f9 i (by omega) (by rcases hcur with h | h <;> omega)]
-    rw [g1.touch.frame i hi hne]; rfl
-  · have hp := g1.touch.pre
-    by_cases hab : (forA e b σ).2.1 = b
-    · rw [hab] at f3
-      rw [show (forS7 x e b σ).blk b = _ from f3]
+    rw [f9 i (by omega) (by rcases hcur with h | h <;> omega), hfr i hi hne]
+  · by_cases hab : (forA e b σ).2.1 = b
+    · rw [hab] at f3 ⊢
+      rw [f3]
       exact hp
-    · rw [show (forS7 x e b σ).blk b = _ from f9 b (by omega) (fun h => hab h.symm)]
+    · rw [f9 b (by omega) (fun h => hab h.symm)]
       exact hp
 
 theorem build_good (s : Stmt) : ∀ (prev b : Nat) (J : Jumps) (σ : BState), b < σ.len →
